@@ -417,7 +417,7 @@ impl RE {
             }
             RE::IdxN(x, n) => {
                 let lit = matches!(**x, RE::Val(RV::Float(_)) | RE::Val(RV::Dec(_)))
-                    || matches!(&**x, RE::IdxF(_, f) if field_merges_with_index(f));
+                    || matches!(&**x, RE::IdxF(_, f) | RE::Ref(f) | RE::Sym(f) if !f.is_empty() && field_merges_with_index(f));
                 x.unparse_masked(out, mask, idx, if lit { 10 } else { 8 })?;
                 out.push('.');
                 out.push_str(&n.to_string());
@@ -536,7 +536,7 @@ impl RE {
             }
             RE::IdxN(x, n) => {
                 // `f1.0` / `d1.0` would lex as one literal
-                if (matches!(**x, RE::Val(RV::Float(_)) | RE::Val(RV::Dec(_))) || matches!(&**x, RE::IdxF(_, f) if field_merges_with_index(f))) && !full {
+                if (matches!(**x, RE::Val(RV::Float(_)) | RE::Val(RV::Dec(_))) || matches!(&**x, RE::IdxF(_, f) | RE::Ref(f) | RE::Sym(f) if !f.is_empty() && field_merges_with_index(f))) && !full {
                     out.push('(');
                     x.unparse_into(out, full)?;
                     out.push(')');
